@@ -1,5 +1,6 @@
 mod exec;
 mod frames;
+mod logsub;
 mod props;
 mod real_client;
 mod runner;
@@ -38,6 +39,7 @@ fn main() {
         usage();
     }
     runner::install_panic_hook();
+    logsub::install();
     // A replay file is re-run with the tier it was recorded in (some properties size their
     // scenarios by tier, so the same tape would otherwise describe another scenario).
     let thorough = if args[1] == "--replay" {
